@@ -18,12 +18,12 @@ import (
 // sandbox (and every traced write call) is contained in what the statement allows.
 
 type C15Step struct {
-	Name    string   `json:"name"`
-	Argv    []string `json:"argv"` // without -d
-	Dir     string   `json:"dir"`  // value of -d ("" = absent); relative to cwd
-	Cwd     string   `json:"cwd"`  // relative to the sandbox root
-	Stdin   string   `json:"stdin_file,omitempty"`
-	UnsetCI bool     `json:"unset_ci,omitempty"`
+	Name    string     `json:"name"`
+	Argv    []string   `json:"argv"` // without -d
+	Dir     string     `json:"dir"`  // value of -d ("" = absent); relative to cwd
+	Cwd     string     `json:"cwd"`  // relative to the sandbox root
+	Stdin   string     `json:"stdin_file,omitempty"`
+	UnsetCI bool       `json:"unset_ci,omitempty"`
 	Plan    simrt.Plan `json:"plan"`
 }
 
@@ -118,7 +118,7 @@ func genC15(t *rapid.T, tier string) (*World, any) {
 	putCRSTree(w, "crs", t, "outer")
 	putCRSTree(w, "crs/nested", t, "nested") // a nested root
 	putCRSTree(w, "outside", nil, "")        // a sibling tree that must never be touched
-	w.Put("crs.conf", dirtyConf)              // beside the root
+	w.Put("crs.conf", dirtyConf)             // beside the root
 	w.Put("942100.yaml", dirtyYaml)
 	p := &C15Params{}
 	type cmdT struct {
